@@ -76,6 +76,7 @@ func buildWorld() *world {
 	mk("f", "g", 1, fund)
 	mk("a1", "f", 2, types.Transactions{txT})
 	mk("C", "a1", 3, types.Transactions{w.txNew})
+	mk("C2", "a1", 3, types.Transactions{w.txNew2}) // a second block of the same deputy at the same height: it is "evil" afterwards
 	mk("b1", "f", 3, nil)
 	mk("O", "C", 4, nil)
 	mk("O2", "O", 1, nil)
@@ -182,7 +183,7 @@ func (e *env) digest() string {
 			s += fmt.Sprintf("/%d", len(b.Confirms))
 		}
 	}
-	for _, bn := range []string{"C", "b1", "O", "O2"} {
+	for _, bn := range []string{"C", "C2", "b1", "O", "O2"} {
 		if bc.HasBlock(e.w.hash(bn)) {
 			s += "/" + bn
 		}
@@ -204,7 +205,7 @@ func (e *env) effects() (tags []string, chainChanged, poolChanged bool) {
 	d := e.digest()
 	if d != e.base {
 		if !chainChanged {
-			for _, bn := range []string{"C", "b1", "O", "O2"} {
+			for _, bn := range []string{"C", "C2", "b1", "O", "O2"} {
 				if bc.HasBlock(e.w.hash(bn)) {
 					tags = append(tags, "fork-block-stored")
 					break
